@@ -457,9 +457,15 @@ class CollisionArray:
             targetGrid.N - 1,
             targetGrid.N - 1,
         )
-        interpolatedData = np.array(source.polynomialData.evaluate(gridPoints, (1, 2)))[
-            ..., : targetGrid.N - 1, : targetGrid.N - 1
-        ].reshape(newShape)
+        # evaluate() returns the axes (point, particle1, particle2, pz-order, pp-order):
+        # move the point axis behind the first particle axis before reshaping.
+        interpolatedData = np.moveaxis(
+            np.array(source.polynomialData.evaluate(gridPoints, (1, 2)))[
+                ..., : targetGrid.N - 1, : targetGrid.N - 1
+            ],
+            0,
+            1,
+        ).reshape(newShape)
 
         interpolatedPolynomial = Polynomial(
             interpolatedData,
